@@ -76,6 +76,8 @@ class Judge:
 
     def run(self):
         d = self.d
+        if any(e[0] == 'S' for e in self.case['events']):
+            return self.fail          # a changing store is judged by the necessary conditions only
         prev_n = {}
         prev_closing = {}
         final_frames = {q: d.frames_of(q) for q in d.order}
@@ -399,6 +401,24 @@ def arrived_frames(chunks):
     return out
 
 
+def arrived_frames_tagged(chunks):
+    """as arrived_frames, each frame with the index of the chunk that completed it: (op, body, k)"""
+    out, buf, ends = [], b'', []
+    for k, ch in enumerate(chunks):
+        buf += ch
+        ends.append(len(buf))
+    off = 0
+    while len(buf) - off >= 5:
+        ml, op = struct.unpack('!iB', buf[off:off + 5])
+        if op > 5 or ml > P.SIZES.get(op, P.MAXBUF) or ml < 5 or len(buf) - off < ml:
+            break
+        end = off + ml
+        k = next(i for i, e in enumerate(ends) if e >= end)
+        out.append((op, buf[off + 5:end], k))
+        off = end
+    return out
+
+
 def necessary(case, d):
     """-> dict property id -> failure text"""
     fail = {}
@@ -425,6 +445,8 @@ def necessary(case, d):
 
     def flag(pid, k, msg):
         fail.setdefault(pid, 'event %d %r: %s' % (k, d.trace[k]['ev'][:2], msg))
+    cfg = dict(cfg)
+    cfg_at = {}              # (q, index of the chunk in fed[q]) -> the store contents when that chunk arrived
     fed = {}
     nonce = {}
     prev_n = {}
@@ -433,14 +455,14 @@ def necessary(case, d):
 
     def facts(q):
         """(idents validly authenticated, channels it asked to subscribe, publishes it sent) so far"""
-        va, subs, pubs = set(), set(), set()
-        for op, body in arrived_frames(fed.get(q, [])):
+        va, subs, pubs = {}, set(), set()      # va: ident -> rows it validly authenticated with (as stored at that time)
+        for op, body, kc in arrived_frames_tagged(fed.get(q, [])):
             try:
                 if op == P.OP_AUTH:
                     i, dg = unpack8(body)
-                    row = cfg.get(i)
+                    row = cfg_at[(q, kc)].get(i)
                     if row and hashlib.sha1(nonce[q] + row[0].encode('utf-8')).digest() == bytes(dg):
-                        va.add(i)
+                        va.setdefault(i, []).append(row)
                 elif op == P.OP_SUBSCRIBE:
                     i, rest = unpack8(body)
                     subs.add(bytes(rest).decode('utf-8'))
@@ -458,7 +480,14 @@ def necessary(case, d):
         snap = rec['snap']
         if ev[0] == 'C' and rec['delivered']:
             nonce[ev[1]] = unjbytes(ev[2])
+        if ev[0] == 'S':
+            row = ev[2]
+            cfg = dict(cfg)
+            cfg[unjbytes(ev[1]).decode('utf-8')] = None if row is None else (
+                unjbytes(row[0]).decode('utf-8'), [unjbytes(c).decode('utf-8') for c in (row[1] or [])],
+                [unjbytes(c).decode('utf-8') for c in (row[2] or [])])
         if ev[0] == 'D' and rec['delivered']:
+            cfg_at[(ev[1], len(fed.get(ev[1], [])))] = cfg
             fed.setdefault(ev[1], []).append(unjbytes(ev[2]))
         origin = ev[1] if ev[0] == 'D' and rec['delivered'] else None
         for r, s in snap.items():
@@ -478,13 +507,13 @@ def necessary(case, d):
                 va, _, pubs = facts(origin)
                 if not va:
                     flag('C02', k, 'a PUBLISH from %d was delivered although %d never presented a valid OP_AUTH' % (origin, origin))
-                if i not in va or c not in (cfg.get(i) or ('', [], []))[1]:
+                if i not in va or not any(c in row[1] for row in va[i]):
                     flag('C03', k, 'delivered PUBLISH names ident %r / channel %r; its sender %d validly authenticated only as %r'
                          % (i, c, origin, sorted(va)))
                 if (i, c, bytes(payload)) not in pubs:
                     flag('C01', k, 'delivered PUBLISH (%r, %r, %d bytes) was never sent by %d' % (i, c, len(payload), origin))
                 rva, rsubs, _ = facts(r)
-                if c not in rsubs or not any(c in (cfg.get(j) or ('', [], []))[2] for j in rva):
+                if c not in rsubs or not any(c in row[2] for rows in rva.values() for row in rows):
                     flag('C04', k, 'connection %d was sent channel %r which it never subscribed to with permission (valid idents %r)'
                          % (r, c, sorted(rva)))
                 if prev_closing.get(r):
